@@ -318,7 +318,9 @@ def run_case(case):
         # b loses everything (restart) and builds a fresh IKE_SA with a; traffic keeps flowing on the fresh one.  The IKE_SA a
         # still holds from before (and its kernel SAs) must be gone within DPD interval + retransmission budget
         # (an IKE_SA still in its initial exchanges may legitimately complete with the restarted peer: not an orphan)
-        orphans = [q for q in s.a.sas if q.state >= State.ESTABLISHED]
+        # (nor is a REKEYED one: it has handed its CHILD_SAs to its successor, owns no kernel SA and only waits for the peer's
+        # DELETE - the statement is about the kernel SAs shared with the dead peer)
+        orphans = [q for q in s.a.sas if State.ESTABLISHED <= q.state < State.REKEYED]
         orphan_sad = set(s.a.kernel.sad)
         s.w.inflight.clear()
         s.apply(['crash', 'b'])
